@@ -1442,6 +1442,16 @@ fn run(a: &Args) {
                                             cur = (pos + 1) % n;
                                         }
                                     }
+                                    // C04: the round-robin cursor moves only when a connection is dispatched (or the set of
+                                    // workers changes): an iteration that dispatched nothing — whatever notifications it
+                                    // processed — leaves it where it was, so the next connection goes to the worker whose
+                                    // turn it is (seed12 C04-23 moved the cursor to the worker that had just released)
+                                    if !w.any_die && !report.exited && d.is_empty() && after.handles == before.handles && after.next != before.next {
+                                        let msg = format!(
+                                            "an iteration that dispatched nothing moved the round-robin cursor from slot {} to slot {} (workers {:?}): the worker whose turn it is will be skipped",
+                                            before.next, after.next, before.handles);
+                                        w.t3.push(("C04".into(), msg));
+                                    }
                                     // C05: nothing is dispatched by an iteration that starts and ends paused when no
                                     // resume command was issued since the previous iteration ended
                                     if before.paused && after.paused && !w.resume_seen && !d.is_empty() {
